@@ -183,6 +183,16 @@ def binop(op, a, b):
     if is_bool_like(b):
         b = to_int(b)
     real = is_real_like(a) or is_real_like(b)
+    # trivial identities keep index terms syntactically simple (they end up inside quantifier triggers)
+    if not real or (is_real_like(a) and is_real_like(b)) or isinstance(a, int) or isinstance(b, int):
+        if op == '+' and not is_sym(a) and a == 0 and not (real and is_int_like(b)):
+            return b
+        if op in '+-' and not is_sym(b) and b == 0 and not (real and is_int_like(a)):
+            return a
+        if op == '*' and not is_sym(a) and a == 1 and not (real and is_int_like(b)):
+            return b
+        if op == '*' and not is_sym(b) and b == 1 and not (real and is_int_like(a)):
+            return a
     if op in '+-*':
         if real:
             a, b = to_real(a), to_real(b)
